@@ -298,9 +298,20 @@ def r2_end_of_input(ctx: Ctx) -> None:
     ctx.check(any(isinstance(r, ast.Return) and unparse(r.value) == "EOF" for h in [n for n in walk_no_nested(pk.node) if isinstance(n, ast.ExceptHandler)] for r in h.body),
               "Scanner.peek:sentinel", "past the end of input peek() returns the EOF sentinel")
     nx = ctx.repo.func("a816.parse.scanner", "Scanner.next")
-    ok = any(isinstance(s, ast.If) and unparse(s.test) == "self.pos < len(self.input)" and any(isinstance(r, ast.Return) and unparse(r.value) == "None" for r in s.orelse)
-             and any(isinstance(a, ast.AugAssign) and unparse(a) == "self.pos += 1" for a in s.body) for s in nx.node.body)
-    ctx.check(ok, "Scanner.next:end-of-input", "next() advances by one inside the input and returns None (without advancing) at its end")
+    # layout-independent: `return None` exactly when pos is not inside the input, `self.pos += 1` (by a positive constant that does not
+    # pass the end) exactly when it is; conditions read through the CFG (if/else, guard clause, min() clamp ...)
+    gnx = CFG(nx.node)
+    inside = {("self.pos < len(self.input)", True), ("self.pos >= len(self.input)", False), ("len(self.input) > self.pos", True), ("len(self.input) <= self.pos", False)}
+    outside = {(t, not p) for t, p in inside}
+    rets_none = [r for r in walk_no_nested(nx.node) if isinstance(r, ast.Return) and (r.value is None or unparse(r.value) == "None")]
+    adv = [a for a in walk_no_nested(nx.node) if (isinstance(a, ast.AugAssign) and unparse(a.target) == "self.pos") or
+           (isinstance(a, ast.Assign) and unparse(a.targets[0]) == "self.pos")]
+    ok_none = bool(rets_none) and all(gnx.path_conditions(gnx.node_of(r)) & outside for r in rets_none)
+    ok_adv = bool(adv) and all(gnx.path_conditions(gnx.node_of(a)) & inside for a in adv) and all(
+        unparse(a) in ("self.pos += 1", "self.pos = self.pos + 1", "self.pos = min(self.pos + 1, len(self.input))", "self.pos = min(len(self.input), self.pos + 1)") for a in adv)
+    if rets_none and adv and not (ok_none and ok_adv) and not all(unparse(a).startswith(("self.pos += ", "self.pos = ")) and "self.pos" in unparse(a) for a in adv):
+        raise AnalysisError("Scanner.next: cursor update not modelled")
+    ctx.check(ok_none and ok_adv, "Scanner.next:end-of-input", "next() advances by one inside the input and returns None (without advancing) at its end")
     cur = ctx.repo.func("a816.parse.parser", "Parser.current")
     ctx.check(any("TokenType.EOF" in unparse(r) for r in walk_no_nested(cur.node) if isinstance(r, ast.Return)), "Parser.current:end-of-input", "past the last token current() is an EOF token")
     sim = EofSim(ctx.repo, eof_const)
@@ -346,8 +357,16 @@ def r3_run_sentinels(ctx: Ctx) -> None:
     eof_const = tok.assigns["EOF"].value  # type: ignore[union-attr]
     ar = ctx.repo.func("a816.parse.scanner", "Scanner.accept_run")
     loops = [n for n in walk_no_nested(ar.node) if isinstance(n, ast.While)]
-    ok = len(loops) == 1 and unparse(loops[0].test) == f"self.accept({ar.params()[1]}, {ar.params()[2]})"
-    ctx.check(ok, "Scanner.accept_run:shape", "repeats accept(candidates, negate) until it fails")
+    from ..match import canon as _canon_ar
+
+    cand_p, neg_p = ar.params()[1], ar.params()[2]
+    tst = _canon_ar(ar.node, loops[0].test) if len(loops) == 1 else ""
+    ok = tst == f"self.accept({cand_p}, {neg_p})"
+    alt = tst in (f"(self.peek() in frozenset({cand_p})) != {neg_p}", f"(self.peek() in {cand_p}) != {neg_p}", f"(self.peek() in set({cand_p})) != {neg_p}") and \
+        len(loops) == 1 and [unparse(b) for b in loops[0].body] == ["self.next()"]
+    if not (ok or alt):
+        raise AnalysisError(f"Scanner.accept_run: loop `{tst[:60]}` not modelled (expected: repeat accept(candidates, negate) until it fails)")
+    ctx.ok("Scanner.accept_run:shape", "consumes characters while membership in the candidates differs from `negate`")
     ac = ctx.repo.func("a816.parse.scanner", "Scanner.accept")
     gac = CFG(ac.node)
     nxt = [gac.node_containing(c) for c in calls_in(ac.node) if call_name(c) == "self.next"]
